@@ -77,6 +77,13 @@ Thm(w, cx) == LET r == Search(w.node, Max2(w.ngrp, 1), cx) IN
 Spans(n, cx) == SetToSeq({<<i - 1, j - 1>> : i \in 1..Len(cx.s) + 1, j \in 1..Len(cx.s) + 1} \cap
                          UNION {{<<i - 1, j - 1>> : j \in Ends(n, i, cx)} : i \in 1..Len(cx.s) + 1})
 
+(* an unbounded (or large) repetition whose body contains another one: the backtracking matcher tries exponentially many
+   ways of splitting a run between the two loops before it gives up, e.g. (a+)*b on a line of a's *)
+Loopish(n) == n.hi < 0 \/ n.hi >= 4
+RECURSIVE HasLoop(_), NestedLoop(_)
+HasLoop(n) == n # Null /\ (Loopish(n) \/ HasLoop(n.a) \/ HasLoop(n.b))
+NestedLoop(n) == n # Null /\ ((Loopish(n) /\ (HasLoop(n.a) \/ HasLoop(n.b))) \/ NestedLoop(n.a) \/ NestedLoop(n.b))
+
 (* one pattern against the line family under every flag combination *)
 PatCase(p, lines) ==
     LET pr == ParseRe(p)
@@ -87,6 +94,7 @@ PatCase(p, lines) ==
         used |-> IF w.ok THEN EmitLen(w.node) + 3 ELSE 0,
         wf |-> B2N(WellFormed(w.node)),
         eloop |-> B2N(EmptyLoop(w.node)),
+        nest |-> B2N(NestedLoop(w.node)),
         simple |-> B2N(sp.simple), hasop |-> B2N(HasOperator(p, 1)),
         thm |-> B2N(~(pr.clean /\ w.clean) \/ \A li \in 1..Len(lines) : \A f \in 1..8 : Thm(w, Cx(lines[li], f))),
         res |-> IF ~(pr.clean /\ w.clean) THEN <<>>
